@@ -1,29 +1,47 @@
 --------------------------- MODULE Scen_Subscriber ---------------------------
 (* Scenario generator for C14: behaviours of Subscriber with a history variable.  A scenario is *)
-(* a duty oracle built duty by duty (at most SetupLen duties), followed by Subscribe / Advance / *)
-(* Attest steps; it is printed as JSON when it has ScenLen steps and replayed on the real       *)
-(* subscriber, aggregator and controller by the Go driver.                                      *)
-EXTENDS Subscriber, Json
+(* a duty oracle built duty by duty (at most SetupLen duties), followed by a history of          *)
+(* Subscribe (ok / failing) / Head (plain / re-org = refresh) / Resub (a re-subscription in      *)
+(* flight completes: ok / failing) / Duty (the oracle changes: add / drop) / Advance / Attest    *)
+(* steps; it is printed as JSON when it has ScenLen steps and replayed on the real subscriber,   *)
+(* aggregator and controller by the Go driver.                                                   *)
+EXTENDS Subscriber, Json, Randomization
 
-CONSTANTS ScenLen, SetupLen
+CONSTANTS ScenLen, SetupLen,
+          SetupFan   \* candidates offered per setup step (a random sample of DutySpace keeps simulation fast)
 VARIABLE hist
 svars == <<vars, hist>>
 
-SInit == Init /\ hist = <<[ev |-> "Reset", now |-> now, target |-> target]>>
+SInit == Init /\ hist = <<[ev |-> "Reset", now |-> now, target |-> target, spe |-> geo.spe, ep |-> geo.ep]>>
 
 H(e) == hist' = Append(hist, e)
 
+DutyRec(op, d) == [ev |-> "Duty", op |-> op, v |-> d.v, slot |-> d.slot, committee |-> d.committee,
+                   size |-> d.size, h |-> d.h]
+
+\* thins out a branch of the generator: true once in n evaluations (the generator runs in simulation mode)
+Coin(n) == RandomElement(1..n) = 1
+
 \* the stimulus only: which validator of a pair is stored is the implementation's choice
 SSubscribe == \E I \in SUBSET Entries(duties, target) : SubscribeWith(I, I)
+SResub == \E I \in SUBSET Entries(duties, target) : ResubOk(I, I)
 
 SNext ==
     /\ Len(hist) <= ScenLen
     /\ \/ /\ Len(hist) <= SetupLen
-          /\ \E d \in DutySpace : AddDuty(d) /\ H([ev |-> "Duty", v |-> d.v, slot |-> d.slot, committee |-> d.committee,
-                                                  size |-> d.size, h |-> d.h])
+          /\ ~started
+          /\ \E d \in RandomSubset(SetupFan, DutySpace) : AddDuty(d) /\ H(DutyRec("add", d))
        \/ /\ duties # {}
           /\ \/ \E t \in Nows : Advance(t) /\ H([ev |-> "Advance", now |-> t])
-             \/ SSubscribe /\ H([ev |-> "Subscribe"])
+             \/ SSubscribe /\ H([ev |-> "Subscribe", fail |-> FALSE])
+             \/ Coin(3) /\ SubscribeFail /\ H([ev |-> "Subscribe", fail |-> TRUE])
+             \/ Refresh /\ H([ev |-> "Head", reorg |-> TRUE])
+             \/ Coin(2) /\ started /\ (Housekeep \/ UNCHANGED vars) /\ H([ev |-> "Head", reorg |-> FALSE])
+             \/ SResub /\ H([ev |-> "Resub", fail |-> FALSE])
+             \/ ResubFail /\ H([ev |-> "Resub", fail |-> TRUE])
+             \* a re-org changes the oracle (thinned out: one random candidate, one random duty dropped)
+             \/ Coin(2) /\ started /\ \E d \in RandomSubset(1, DutySpace) : AddDuty(d) /\ H(DutyRec("add", d))
+             \/ Coin(2) /\ \E d \in RandomSubset(1, duties) : DropDuty(d) /\ H(DutyRec("drop", d))
              \/ \E s \in SlotSpace : \E C \in SUBSET Committees : \E ok \in BOOLEAN :
                     AttestJob(s, C, ok) /\ H([ev |-> "Attest", slot |-> s, committees |-> C, ok |-> ok])
 
